@@ -269,6 +269,26 @@ class InterpCore:
                     and elt.args[0].origin and elt.args[0].origin[0] in ("elem", "key") and isinstance(elt.args[1], str):
                 src = elt.args[0].origin[1]
                 self.elem_notkinds.setdefault(src.key(), []).extend(elt.args[1].split("|"))
+        # `all(not isinstance(x, K1) and not isinstance(x, K2) for x in S)` is True  =>  the same (De Morgan)
+        if isinstance(v, Term) and v.op == "all" and val and isinstance(v.args[0], Term) \
+                and v.args[0].op in ("gencomp", "listcomp"):
+            def negs(t: Any) -> Optional[List[Any]]:
+                if isinstance(t, Term) and t.op == "and":
+                    out: List[Any] = []
+                    for a in t.args:
+                        r = negs(a)
+                        if r is None:
+                            return None
+                        out += r
+                    return out
+                if isinstance(t, Term) and t.op == "not" and isinstance(t.args[0], Term) and t.args[0].op == "isinstance":
+                    return [t.args[0]]
+                return None
+            for elt in negs(v.args[0].args[0]) or []:
+                if isinstance(elt.args[0], Sym) and elt.args[0].origin and elt.args[0].origin[0] in ("elem", "key") \
+                        and isinstance(elt.args[1], str):
+                    src = elt.args[0].origin[1]
+                    self.elem_notkinds.setdefault(src.key(), []).extend(elt.args[1].split("|"))
         # `type(x) is K` / `x.__class__ is K`  =>  x is exactly a K
         if isinstance(v, Term) and v.op == "is" and val and len(v.args) == 2:
             for tx, kx in ((v.args[0], v.args[1]), (v.args[1], v.args[0])):
@@ -313,7 +333,11 @@ class InterpCore:
             t = self.truth(v.args[0])
             return None if t is None else (not t)
         if isinstance(v, Sym) and v.kind in ("Schema", "function", "ValidationResult"):
-            return True     # (a th.PathHolder defines __len__: the root path is falsy - its truth value is not known)
+            # (a th.PathHolder defines __len__: the root path is falsy - its truth value is not known; neither is that of a
+            # MEMBER schema: no built-in schema class defines __bool__ / __len__, a user's custom type may)
+            if v.kind == "Schema" and v.origin and v.origin[0] == "member":
+                return None
+            return True
         return None
 
     def resolve(self, v: V) -> V:
